@@ -6,7 +6,7 @@
 //   rwp seed N lin circ quat ratio w_0..   -> ResamplingWithPrior::resample with a deterministic initialiser
 //   seq seed kind ratio ncalls (N lin circ quat w..) x ncalls -> ONE resampling object serving successive calls of different sizes
 //   glik scale fail m N y P R              -> GaussianLikelihood::likelihood on a measurement model whose calls can fail
-//   sis seed N lin circ K D prior ratio u.. w.. x.. (cmd freeze valid l_0..l_{N-1}) x K
+//   sis seed N lin circ K D prior ratio u.. E (w0.. x0..) x E (ncmd cmd.. freeze valid reset shift l_0..l_{N-1}) x K
 //                                          -> the real SIS filter thread, scripted models, K steps
 //
 // The draw `u1` is obtained from a twin generator (same seed, same distribution) run in lock-step.
@@ -235,9 +235,10 @@ static std::string op_seq(Toks& t) {
 
 struct Script {
     long N = 0, K = 0;
-    std::vector<int> cmd; std::vector<bool> freeze, valid; std::vector<VectorXd> lik;
-    VectorXd w0, x0;
-    long step = 0;           // step being executed (set by the filter subclass)
+    std::vector<std::vector<int>> cmds; std::vector<bool> freeze, valid, reset; std::vector<double> shift; std::vector<VectorXd> lik;
+    std::vector<VectorXd> w0s, x0s;   // initial weights / first state rows, one pair per epoch (cycled)
+    long epoch = 0;          // number of initialisations done so far
+    long step = 0;           // global index of the step being executed (set by the filter subclass)
     long freeze_calls = 0, lik_calls = 0, motion_calls = 0;
 };
 
@@ -245,8 +246,9 @@ struct SInit : public ParticleSetInitialization {
     explicit SInit(Script* s) : s_(s) {}
     bool initialize(ParticleSet& p) override {
         for (long i = 0; i < (long)p.state().cols(); ++i)
-            for (long r = 0; r < p.state().rows(); ++r) p.state()(r, i) = s_->x0(i) + 0.001953125 * r;
-        p.weight() = s_->w0;
+            for (long r = 0; r < p.state().rows(); ++r) p.state()(r, i) = s_->x0s[s_->epoch % s_->x0s.size()](i) + 0.001953125 * r;
+        p.weight() = s_->w0s[s_->epoch % s_->w0s.size()];
+        ++s_->epoch;
         return true;
     }
     Script* s_;
@@ -255,7 +257,7 @@ struct SInit : public ParticleSetInitialization {
 struct SState : public StateModel {
     SState(Script* s, long lin, long circ) : s_(s), lin_(lin), circ_(circ) {}
     void propagate(const Ref<const MatrixXd>& cur, Ref<MatrixXd> prop) override { prop = cur.array() + 1.0; }
-    void motion(const Ref<const MatrixXd>& cur, Ref<MatrixXd> mot) override { ++s_->motion_calls; mot = cur.array() + 1.0; }
+    void motion(const Ref<const MatrixXd>& cur, Ref<MatrixXd> mot) override { ++s_->motion_calls; mot = cur.array() + s_->shift[s_->step]; }   // time-varying
     bool setProperty(const std::string&) override { return false; }
     VectorDescription getInputDescription() override { return VectorDescription(lin_, circ_); }
     VectorDescription getStateDescription() override { return VectorDescription(lin_, circ_); }
@@ -337,11 +339,16 @@ struct SSIS : public SIS {
     SSIS(Script* s, ResLog* log, unsigned int n, std::size_t lin, std::size_t circ,
          std::unique_ptr<ParticleSetInitialization> i, std::unique_ptr<PFPrediction> p, std::unique_ptr<PFCorrection> c, std::unique_ptr<Resampling> r)
         : SIS(n, lin, circ, std::move(i), std::move(p), std::move(c), std::move(r)), s_(s), log_(log) {}
-    bool run_condition() override { return static_cast<long>(step_number()) < s_->K; }
+    bool run_condition() override { return g_ < s_->K; }
+    void log() override {                // called by filtering_step() after the normalisation, before the resampling decision
+        ++log_calls_;
+        lw_.assign(cor_particle_.weight().data(), cor_particle_.weight().data() + cor_particle_.weight().size());
+        SIS::log();
+    }
     void filtering_step() override {
-        long k = step_number();
+        long k = g_;
         s_->step = k;
-        switch (s_->cmd[k]) {            // skip commands issued between the previous step and this one
+        for (int cmd : s_->cmds[k]) switch (cmd) {     // skip commands issued between the previous step and this one
             case 1: skip_ok_ &= skip("prediction", true); break;
             case 2: skip_ok_ &= skip("prediction", false); break;
             case 3: skip_ok_ &= skip("correction", true); break;
@@ -350,7 +357,8 @@ struct SSIS : public SIS {
             case 6: skip_ok_ &= skip("all", false); break;
             default: break;
         }
-        *log_ = ResLog();
+        *log_ = ResLog(); log_calls_ = 0; lw_.clear();
+        long stepno = step_number();
         SIS::filtering_step();
         // observables after the step
         Out o; o.s("S");
@@ -361,6 +369,7 @@ struct SSIS : public SIS {
         o.n(log_->parents.size()); for (int q : log_->parents) o.n(q);
         for (long i = 0; i < c.weight().rows(); ++i) o.d(c.weight()(i));
         for (long i = 0; i < c.state().cols(); ++i) o.d(c.state().rows() ? c.state()(0, i) : 0.0);
+        o.s("L").n(lw_.size()); for (double v : lw_) o.d(v);        // corrected weights as seen by log()
         // extra facts (not part of the model's output block): storage rows, draw used, row pattern of the states
         bool rows_ok = true;
         for (long i = 0; i < c.state().cols(); ++i)
@@ -393,9 +402,13 @@ struct SSIS : public SIS {
         o.n(log_->cs.size()); for (double v : log_->cs) o.d(v);
         o.n(p.weight().rows()); for (long i = 0; i < p.weight().rows(); ++i) o.d(p.weight()(i));
         o.n(p.state().cols()); for (long i = 0; i < p.state().cols(); ++i) o.d(p.state().rows() ? p.state()(0, i) : 0.0);
+        o.n(stepno).n(log_calls_);
         blocks.push_back(o.str());
+        if (s_->reset[k]) reset();       // a reset command arrives during this step: the recursion re-initialises before the next one
+        ++g_;
     }
     Script* s_; ResLog* log_; bool skip_ok_ = true, copies_ok_ = true, prior_ = false; std::vector<std::string> blocks;
+    long g_ = 0, log_calls_ = 0; std::vector<double> lw_;
 };
 
 static std::string op_sis(Toks& t) {
@@ -406,9 +419,12 @@ static std::string op_sis(Toks& t) {
     if (m < 1) throw vh::BadArgs("ratio");
     sc.N = n; sc.K = K;
     VectorXd us = t.vec(D);
-    sc.w0 = t.vec(n); sc.x0 = t.vec(n);
+    long E = t.nat(); if (E < 1) throw vh::BadArgs("epochs");
+    for (long e = 0; e < E; ++e) { sc.w0s.push_back(t.vec(n)); sc.x0s.push_back(t.vec(n)); }
     for (long k = 0; k < K; ++k) {
-        sc.cmd.push_back((int)t.nat()); sc.freeze.push_back(t.flag()); sc.valid.push_back(t.flag()); sc.lik.push_back(t.vec(n));
+        long nc = t.nat(); std::vector<int> cs; for (long i = 0; i < nc; ++i) cs.push_back((int)t.nat());
+        sc.cmds.push_back(cs); sc.freeze.push_back(t.flag()); sc.valid.push_back(t.flag()); sc.reset.push_back(t.flag()); sc.shift.push_back(t.dbl());
+        sc.lik.push_back(t.vec(n));
     }
     t.done();
     // the draws handed to the model are the twin generator's
